@@ -116,73 +116,170 @@ func observePayHist(o *Toks, mk func() payloader, calls []PayCall) {
 	}
 }
 
+// ---- generic depacketizer observation and input-mutation helpers (contributed by the vpx group)
+
+// depacketizer is the part of rtp.Depacketizer the C09 observation needs.
 type depacketizer interface {
 	Unmarshal(packet []byte) ([]byte, error)
 	IsPartitionHead(payload []byte) bool
 	IsPartitionTail(marker bool, payload []byte) bool
 }
 
-// observeDepHist feeds a sequence of payloads to ONE receiver and writes `<n> DepObs*`
-// (mirrors Pred.C09.DepObs): per call `res <meta tokens> head tail0 tail1 auxPanic freshSame twinSame`.
-// meta writes the codec-specific metadata tokens of a receiver (may be nil).
-// After each call the buffer handed to the main receiver is overwritten; the twin receiver
-// always gets pristine copies, so retained aliases show up as twinSame=0 on later calls.
-func observeDepHist(o *Toks, mk func() depacketizer, payloads [][]byte, meta func(t *Toks, d depacketizer)) {
-	d, twin := mk(), mk()
+// depResult is the canonical outcome of one Unmarshal call.
+type depResult struct {
+	panicked bool
+	err      bool
+	out      []byte
+}
+
+func (a depResult) equal(b depResult) bool {
+	return a.panicked == b.panicked && a.err == b.err && bytes.Equal(a.out, b.out)
+}
+
+func (a depResult) write(t *Toks) {
+	switch {
+	case a.panicked:
+		t.Panic()
+	case a.err:
+		t.Err("other")
+	default:
+		t.Ok().Bytes(a.out)
+	}
+}
+
+// callUnmarshal runs d.Unmarshal(buf) under recover and snapshots the returned bytes at once
+// (the result may alias buf, which the caller overwrites afterwards).
+func callUnmarshal(d depacketizer, buf []byte) depResult {
+	var r depResult
+	var out []byte
+	var err error
+	if try(func() { out, err = d.Unmarshal(buf) }) {
+		r.panicked = true
+		return r
+	}
+	if err != nil {
+		r.err = true
+		return r
+	}
+	r.out = cloneBytes(out)
+	return r
+}
+
+// observeDepHist feeds the payloads to ONE receiver and writes `<n> depobs*` (see
+// lean/Rtp/Pred/C09.lean DepObs and Driver/Kinds/Vpx.lean rdDepObs):
+//
+//	res md head tail0 tail1 auxPanic freshSame twinSame
+//
+// md writes the receiver's exported metadata.  freshSame: a fresh receiver given the same payload
+// returns the same result and, when the call succeeded, has the same metadata.  twinSame: a twin
+// receiver that is always handed pristine, never overwritten copies returns the same result; the
+// main receiver's input buffer is overwritten after every call.
+func observeDepHist(o *Toks, mk func() depacketizer, md func(t *Toks, d depacketizer), payloads [][]byte) {
+	mdStr := func(d depacketizer) string {
+		var t Toks
+		md(&t, d)
+		return t.String()
+	}
+	mainR, twin := mk(), mk()
 	o.Nat(len(payloads))
-	for _, pl := range payloads {
-		buf := cloneBytes(pl)
-		var out []byte
-		var err error
-		panicked := try(func() { out, err = d.Unmarshal(buf) })
-		outCopy := append([]byte{}, out...)
-		var mt Toks
-		if meta != nil && !panicked {
-			try(func() { meta(&mt, d) })
+	for _, in := range payloads {
+		buf := cloneBytes(in)
+		r := callUnmarshal(mainR, buf)
+		mdMain := mk()
+		if !r.panicked {
+			mdMain = mainR
 		}
-		switch {
-		case panicked:
-			o.Panic()
-		case err != nil:
-			o.Err("other")
-		default:
-			o.Ok().Bytes(outCopy)
-		}
-		if meta != nil {
-			if panicked {
-				var z Toks
-				meta(&z, mk())
-				o.Tok(z.String())
-			} else {
-				o.Tok(mt.String())
-			}
-		}
+		mdS := mdStr(mdMain)
 		var head, t0, t1 bool
 		aux := try(func() {
-			head = d.IsPartitionHead(buf)
-			t0 = d.IsPartitionTail(false, buf)
-			t1 = d.IsPartitionTail(true, buf)
+			head = mainR.IsPartitionHead(buf)
+			t0 = mainR.IsPartitionTail(false, buf)
+			t1 = mainR.IsPartitionTail(true, buf)
 		})
-		o.Bool(head).Bool(t0).Bool(t1).Bool(aux)
-		// fresh receiver, same payload
-		f := mk()
-		var fout []byte
-		var ferr error
-		fp := try(func() { fout, ferr = f.Unmarshal(cloneBytes(pl)) })
-		freshSame := fp == panicked && (ferr != nil) == (err != nil) && (ferr != nil || fp || string(fout) == string(outCopy))
-		if freshSame && meta != nil && !fp && ferr == nil {
-			var fm Toks
-			try(func() { meta(&fm, f) })
-			freshSame = fm.String() == mt.String()
-		}
-		// twin receiver, pristine copies
-		var tout []byte
-		var terr error
-		tp := try(func() { tout, terr = twin.Unmarshal(cloneBytes(pl)) })
-		twinSame := tp == panicked && (terr != nil) == (err != nil) && (terr != nil || tp || string(tout) == string(outCopy))
-		o.Bool(freshSame).Bool(twinSame)
+		fresh := mk()
+		rf := callUnmarshal(fresh, cloneBytes(in))
+		freshSame := r.equal(rf) && (r.panicked || r.err || mdS == mdStr(fresh))
+		rt := callUnmarshal(twin, cloneBytes(in))
+		twinSame := r.equal(rt)
 		for i := range buf {
 			buf[i] ^= 0xA5
 		}
+		r.write(o)
+		o.Tok(mdS)
+		o.Bool(head).Bool(t0).Bool(t1).Bool(aux).Bool(freshSame).Bool(twinSame)
 	}
+}
+
+// writeOBytesList writes `<n> obytes*`.
+func writeOBytesList(t *Toks, bs [][]byte) {
+	t.Nat(len(bs))
+	for _, b := range bs {
+		t.OBytes(b)
+	}
+}
+
+// mutate returns a damaged copy of b: bit flip, truncation, extension, byte replacement.
+func mutate(r *Rand, b []byte, alphabet []byte) []byte {
+	c := append([]byte{}, b...)
+	switch r.Intn(6) {
+	case 0:
+		if len(c) > 0 {
+			c[r.Intn(min(len(c), 12))] ^= 1 << uint(r.Intn(8))
+		}
+	case 1:
+		c = c[:r.Intn(len(c)+1)]
+	case 2:
+		c = append(c, r.Bytes(r.Intn(4))...)
+	case 3:
+		if len(c) > 0 {
+			c[r.Intn(min(len(c), 12))] = alphabet[r.Intn(len(alphabet))]
+		}
+	case 4:
+		if len(c) > 0 {
+			c = c[:r.Intn(min(len(c), 12)+1)]
+		}
+	default:
+		if len(c) > 1 {
+			i := r.Intn(min(len(c), 12))
+			c = append(c[:i], c[i+1:]...)
+		}
+	}
+	return c
+}
+
+// alphaBytes returns n bytes drawn from the alphabet (with an occasional uniformly random byte).
+func alphaBytes(r *Rand, n int, alphabet []byte) []byte {
+	b := make([]byte, n)
+	for i := range b {
+		if r.Chance(1, 8) {
+			b[i] = r.Byte()
+		} else {
+			b[i] = alphabet[r.Intn(len(alphabet))]
+		}
+	}
+	return b
+}
+
+// shortStrings calls f with consecutive blocks of all byte strings of length ≤ maxLen (in
+// length-then-lexicographic order), `block` strings at a time; nil and the empty string come first.
+func shortStrings(maxLen, block int, f func(ss [][]byte)) {
+	cur := [][]byte{nil, {}}
+	flush := func(force bool) {
+		if len(cur) >= block || (force && len(cur) > 0) {
+			f(cur)
+			cur = nil
+		}
+	}
+	for l := 1; l <= maxLen; l++ {
+		total := 1 << (8 * uint(l))
+		for v := 0; v < total; v++ {
+			s := make([]byte, l)
+			for i := 0; i < l; i++ {
+				s[i] = byte(v >> (8 * uint(l-1-i)))
+			}
+			cur = append(cur, s)
+			flush(false)
+		}
+	}
+	flush(true)
 }
